@@ -15,7 +15,7 @@ func init() { Register("C35", c35) }
 // guardedBy is the explicit guarded-by table: confirmed by reading every access.
 var guardedBy = []struct {
 	rel, strct, mutex string
-	fields           []string
+	fields            []string
 }{
 	{"config", "fileConfig", "mux", []string{"mainConfig", "mainHash", "rulesConfig", "rulesHash", "callbacks", "lastLoadTime"}},
 	{"collect", "StressRelief", "lock", []string{"mode", "activateLevel", "deactivateLevel", "sampleRate", "upperBound", "overallStressLevel", "reason", "formula", "stressed", "stayOnUntil", "minDuration", "stressLevels"}},
@@ -41,10 +41,10 @@ var guardedBy = []struct {
 
 // lockExempt: (struct.field, function) pairs that may touch a guarded field without the lock, each with the reason.
 var lockExempt = map[string]string{
-	"CuckooTraceChecker.future/Maintain":           "Maintain is the only writer of `future` and runs on the single monitor goroutine that Resize restarts sequentially",
-	"StressRelief.formula/Recalc":                  "only Recalc writes formula; the unlocked read logs the previous value from the same goroutine",
-	"DirectTransmission.eventBatches/Stop":         "producers are stopped before the transmission (startstop reverse dependency order) and the dispatcher goroutine has been joined",
-	"eventBatch.events/Stop":                       "as above: no enqueue can run concurrently with Stop",
+	"CuckooTraceChecker.future/Maintain":                    "Maintain is the only writer of `future` and runs on the single monitor goroutine that Resize restarts sequentially",
+	"StressRelief.formula/Recalc":                           "only Recalc writes formula; the unlocked read logs the previous value from the same goroutine",
+	"DirectTransmission.eventBatches/Stop":                  "producers are stopped before the transmission (startstop reverse dependency order) and the dispatcher goroutine has been joined",
+	"eventBatch.events/Stop":                                "as above: no enqueue can run concurrently with Stop",
 	"dynsamplerMetricsRecorder.lastMetrics/RegisterMetrics": "documented as not concurrency safe; called on a recorder that is not yet shared (under the factory mutex, or in a sampler's Start)",
 }
 
@@ -151,16 +151,16 @@ func c35(x *Ctx) {
 		}
 	}
 	notShared := map[string]string{
-		"sharder.DeterministicSharder.myShard":          "written once in Start before the routers serve; the peers callback does not touch it",
-		"internal/configwatcher.ConfigWatcher.done":      "reported under C36 (created inside the goroutine)",
-		"transmit.DirectTransmission.dispatchPool":      "set in Start, cleared in Stop after all users were joined",
-		"transmit.DirectTransmission.stop":              "closed and cleared in Stop only",
-		"transmit.DirectTransmission.eventBatches":      "in the table",
-		"sample.dynsamplerMetricsRecorder.dynPrefix":    "written in RegisterMetrics before the recorder is shared",
-		"sample.dynsamplerMetricsRecorder.metricNames":  "written in RegisterMetrics before the recorder is shared",
-		"collect/cache.CuckooTraceChecker.addch":        "channel",
-		"service/debug.DebugService.mux":                "http mux: set up in Start",
-		"service/debug.DebugService.expVars":            "guarded in its accessors; start-up write",
+		"sharder.DeterministicSharder.myShard":         "written once in Start before the routers serve; the peers callback does not touch it",
+		"internal/configwatcher.ConfigWatcher.done":    "reported under C36 (created inside the goroutine)",
+		"transmit.DirectTransmission.dispatchPool":     "set in Start, cleared in Stop after all users were joined",
+		"transmit.DirectTransmission.stop":             "closed and cleared in Stop only",
+		"transmit.DirectTransmission.eventBatches":     "in the table",
+		"sample.dynsamplerMetricsRecorder.dynPrefix":   "written in RegisterMetrics before the recorder is shared",
+		"sample.dynsamplerMetricsRecorder.metricNames": "written in RegisterMetrics before the recorder is shared",
+		"collect/cache.CuckooTraceChecker.addch":       "channel",
+		"service/debug.DebugService.mux":               "http mux: set up in Start",
+		"service/debug.DebugService.expVars":           "guarded in its accessors; start-up write",
 	}
 	for _, ms := range x.mutexStructs() {
 		st := ms.Named.Underlying().(*types.Struct)
